@@ -437,13 +437,30 @@ func ruleK1(c *Ctx) {
 		// sinks
 		nsink := 0
 		cnt := map[string]int{}
-		for _, b := range fn.Blocks {
-			ctrl := ""
+		// control dependence is transitive: a block governed by a branch that is itself governed by a capacity test
+		// (a fast path inside the "does not fit" arm) runs or not with the capacity
+		var capCtrl func(b *ssa.BasicBlock, seen map[*ssa.BasicBlock]bool) string
+		capCtrl = func(b *ssa.BasicBlock, seen map[*ssa.BasicBlock]bool) string {
+			if seen[b] {
+				return ""
+			}
+			seen[b] = true
 			for _, d := range cd[b] {
 				if taintedBranch[d.branch] {
-					ctrl = c.pos(d.branch.Instrs[len(d.branch.Instrs)-1].(*ssa.If).Cond.Pos())
+					return c.pos(d.branch.Instrs[len(d.branch.Instrs)-1].(*ssa.If).Cond.Pos())
 				}
 			}
+			for _, d := range cd[b] {
+				if d.branch != b {
+					if r := capCtrl(d.branch, seen); r != "" {
+						return r
+					}
+				}
+			}
+			return ""
+		}
+		for _, b := range fn.Blocks {
+			ctrl := capCtrl(b, map[*ssa.BasicBlock]bool{})
 			for _, ins := range b.Instrs {
 				switch x := ins.(type) {
 				case *ssa.Store:
